@@ -7,41 +7,86 @@ Open Scope string_scope.
 
 Definition err_eqb (a b : err) : bool :=
   match a, b with
-  | EIndex, EIndex | EValue, EValue | EAttribute, EAttribute | EMixedSigns, EMixedSigns => true
+  | EIndex, EIndex | EValue, EValue | EAttribute, EAttribute | EMixedSigns, EMixedSigns
+  | EType, EType | EZeroDiv, EZeroDiv => true
   | _, _ => false
   end.
 
-Definition card_out := res (list (string * string) * option bool).
-
-Definition card_out_eqb (a b : card_out) : bool :=
+Definition res_eqb {A} (e : A -> A -> bool) (a b : res A) : bool :=
   match a, b with
-  | Ok (l1, f1), Ok (l2, f2) =>
-      list_eqb (pair_eqb String.eqb String.eqb) l1 l2 && option_eqb Bool.eqb f1 f2
+  | Ok x, Ok y => e x y
   | Err e1, Err e2 => err_eqb e1 e2
   | _, _ => false
   end.
 
-(* case (a): tokens of an M card and what compositionConversionMCNPToT4 +
+Definition strs_eqb := list_eqb String.eqb.
+
+(* (a) datacard.split on the content of a data card *)
+Definition quad_eqb (a b : string * string * string * string) : bool :=
+  let '(a1, a2, a3, a4) := a in let '(b1, b2, b3, b4) := b in
+  String.eqb a1 b1 && String.eqb a2 b2 && String.eqb a3 b3 && String.eqb a4 b4.
+Definition check_split (c : string * option (string * string * string * string)) : bool :=
+  option_eqb quad_eqb (data_split (fst c)) (snd c).
+
+(* (b) get_material_composition on the contents of the data cards of a deck *)
+Definition mats_eqb : list (N * list string) -> list (N * list string) -> bool :=
+  list_eqb (pair_eqb N.eqb strs_eqb).
+Definition check_materials (c : list string * res (list (N * list string))) : bool :=
+  res_eqb mats_eqb (get_materials (fst c)) (snd c).
+
+(* (c) tokens of an M card and what compositionConversionMCNPToT4 +
    extract_isotopes_fractions returned (or the exception class) *)
+Definition card_out_eqb : card_out -> card_out -> bool :=
+  res_eqb (fun a b => list_eqb (pair_eqb String.eqb String.eqb) (fst a) (fst b)
+                      && option_eqb Bool.eqb (snd a) (snd b)).
 Definition check_card (c : list string * card_out) : bool :=
   card_out_eqb (convert_card (fst c)) (snd c).
 
-(* case (b): tokens, float(normalize_float(fraction)) for each nuclide, the
-   cell density as a float, and the block parsed back from the written file *)
-Definition block_eqb (a b : block (T:=float)) : bool :=
-  match a, b with
-  | BDensity n1 l1, BDensity n2 l2 => Bool.eqb n1 n2 && list_eqb String.eqb l1 l2
-  | BPointWise l1, BPointWise l2 =>
-      list_eqb (pair_eqb String.eqb (f_close 0x1.c25c268497682p-47 (* 1e-14 *))) l1 l2
-  | _, _ => false
+(* (d) the element enums: str(Z) -> name through both enums *)
+Definition check_symbol (c : N * string) : bool :=
+  match atomic_value (dec (fst c)) with
+  | Some v => match element_name v with Some s => String.eqb s (snd c) | None => false end
+  | None => false
   end.
 
-Definition check_block (c : list string * list float * float * block (T:=float)) : bool :=
-  let '(toks, fracs, density, expected) := c in
-  match convert_card toks with
-  | Ok (entries, Some atom) => block_eqb (block_of FS (map fst entries) atom fracs density) expected
-  | _ => false
+(* (e) the whole COMPOSITION block, byte for byte.  The number renderings are
+   the implementation's own: [norms] = normalize_float of every density,
+   [fvals] = float(normalize_float(.)) of every density and amount (None =
+   ValueError), [rends] = per block name the amounts written, with their
+   values; a computed amount is rendered by the string written at the same
+   place if its value agrees to 1e-14 relative. *)
+Fixpoint lookup {V} (tbl : list (string * V)) (k : string) : option V :=
+  match tbl with
+  | [] => None
+  | (k', v) :: r => if String.eqb k k' then Some v else lookup r k
   end.
 
-(* the symbol table against the implementation's enum *)
-Definition check_symbol (c : N * string) : bool := String.eqb (symbol (fst c)) (snd c).
+Definition tol14 : float := 0x1.c25c268497682p-47.  (* 1e-14 *)
+
+Record text_case := mkText {
+  t_cards : list string;
+  t_cells : list (cell (T:=float));
+  t_norms : list (string * string);
+  t_fvals : list (string * option float);
+  t_rends : list (string * list (float * string));
+  t_expected : res (list string)
+}.
+
+Definition norm_of (c : text_case) (s : string) : string :=
+  match lookup (t_norms c) s with Some n => n | None => "<norm?>" end.
+Definition fval_of (c : text_case) (s : string) : option float :=
+  match lookup (t_fvals c) s with Some v => v | None => None end.
+Definition rend_of (c : text_case) (name : string) (j : nat) (x : float) : string :=
+  match lookup (t_rends c) name with
+  | None => "<block?>"
+  | Some l => match nth_error l j with
+              | None => "<amount?>"
+              | Some (v, s) => if f_close tol14 x v then s else "<value differs>"
+              end
+  end.
+
+Definition model_text (c : text_case) : res (list string) :=
+  composition_lines FS (norm_of c) (fval_of c) (rend_of c) (t_cards c) (t_cells c).
+
+Definition check_text (c : text_case) : bool :=
+  res_eqb strs_eqb (model_text c) (t_expected c).
